@@ -38,6 +38,7 @@ type Case struct {
 	Class  string   `json:"class"`
 	Why    string   `json:"why,omitempty"`
 	Cfg    Cfg      `json:"cfg"`
+	NHosts int      `json:"nhosts"` // servers of the fake cluster (0 = 1); the first is the one connected to
 	Faults []*Fault `json:"faults"` // one entry per interrupted start (nil = start without failure)
 	Runs   []Run    `json:"runs"`   // the interrupted starts, then two starts without failure
 	Final  Final    `json:"final"`
@@ -111,7 +112,10 @@ func callsOfCleanRun(db *DB, cfg Cfg) int {
 }
 
 func runCase(c *Case) {
-	db := NewDB()
+	if c.NHosts < 1 {
+		c.NHosts = 1
+	}
+	db := NewDB(c.NHosts)
 	c.Runs = nil
 	for _, f := range c.Faults {
 		c.Runs = append(c.Runs, start(db, c.Cfg, f))
@@ -160,7 +164,11 @@ func gen(r *rand.Rand, id int) Case {
 	default:
 		nf = 3 + r.Intn(3)
 	}
-	db := NewDB()
+	c.NHosts = 1
+	if c.Cfg.Clustered {
+		c.NHosts = 1 + r.Intn(3)
+	}
+	db := NewDB(c.NHosts)
 	for i := 0; i < nf; i++ {
 		n := callsOfCleanRun(db, c.Cfg)
 		if n == 0 {
@@ -170,12 +178,18 @@ func gen(r *rand.Rand, id int) Case {
 		if r.Intn(5) < 3 {
 			f.Kind = "after"
 		}
+		if c.NHosts > 1 && r.Intn(5) < 2 { // an ON CLUSTER statement that completes on some hosts only
+			f.Kind = "partial"
+			f.Skip = randSkip(r, c.NHosts)
+			f.Err = errDDLTimeout
+			cl += "+partial"
+		}
 		if r.Intn(4) == 0 { // exactly at the statement this start resumes with
 			if p := firstScriptCall(db, c.Cfg); p >= 0 {
 				f.N = p
 			}
 		}
-		if len(errPool) > 0 && r.Intn(2) == 0 {
+		if len(errPool) > 0 && r.Intn(2) == 0 && f.Kind != "partial" {
 			f.Err = errPool[r.Intn(len(errPool))]
 		}
 		switch r.Intn(12) {
@@ -193,6 +207,53 @@ func gen(r *rand.Rand, id int) Case {
 	}
 	c.Class = cl
 	return c
+}
+
+const errDDLTimeout = "ch:159:DB::Exception:Watching task /clickhouse/task_queue/ddl/query-0000000042 is executing longer than distributed_ddl_task_timeout (=180) seconds. " +
+	"There are 1 unfinished hosts (0 of them are currently active), they are going to execute the query in background"
+
+func randSkip(r *rand.Rand, n int) []bool {
+	sk := make([]bool, n)
+	for i := range sk {
+		sk[i] = r.Intn(2) == 0
+	}
+	return sk
+}
+
+// partial: in the two clustered configurations, every script statement of a first start completes on some
+// hosts only (2 or 3 hosts, mask drawn from the seed; the caller gets the ON CLUSTER timeout error); in half
+// of the cases the statement the next start resumes with is cut short again with another mask
+func partial(r *rand.Rand, out *hx.Out, every int) {
+	id := 0
+	names := []string{"single", "cloud", "clustered", "cloud+clustered"}
+	for ci, cfg := range mainCfgs {
+		if !cfg.Clustered {
+			continue
+		}
+		log := start(NewDB(2), cfg, nil).Log
+		for i, e := range log {
+			if e.T != "s" && e.T != "cv" && e.T != "cvd" {
+				continue
+			}
+			if every > 1 && r.Intn(every) != 0 {
+				continue
+			}
+			nh := 2 + r.Intn(2)
+			c := Case{ID: id, Class: names[ci] + "/partial", Cfg: cfg, NHosts: nh,
+				Faults: []*Fault{{N: i, Kind: "partial", Skip: randSkip(r, nh), Err: errDDLTimeout}}}
+			if r.Intn(2) == 0 {
+				db := NewDB(nh)
+				start(db, cfg, c.Faults[0])
+				if p := firstScriptCall(db, cfg); p >= 0 {
+					c.Faults = append(c.Faults, &Fault{N: p, Kind: "partial", Skip: randSkip(r, nh), Err: errDDLTimeout})
+					c.Class += "-twice"
+				}
+			}
+			runCase(&c)
+			out.Put(c)
+			id++
+		}
+	}
 }
 
 // error values a failing call may return (Fault.Err), given by checks/c18.py: a pool of realistic ClickHouse /
@@ -228,7 +289,7 @@ func targeted(r *rand.Rand, per int, out *hx.Out) {
 	id := 0
 	names := []string{"single", "cloud", "clustered", "cloud+clustered"}
 	for ci, cfg := range mainCfgs {
-		log := start(NewDB(), cfg, nil).Log
+		log := start(NewDB(1), cfg, nil).Log
 		var scripts, ivs, rds []int
 		for i, e := range log {
 			switch e.T {
@@ -284,7 +345,7 @@ func targeted(r *rand.Rand, per int, out *hx.Out) {
 					if v == 0 && r.Intn(2) == 0 {
 						first.N++ // interrupted at the version write instead
 					}
-					db := NewDB()
+					db := NewDB(1)
 					start(db, cfg, first)
 					p := firstScriptCall(db, cfg)
 					if p < 0 {
@@ -316,10 +377,15 @@ func main() {
 	targetedN := flag.Int("targeted", 0, "per configuration and error value: this many failing script statements (+1 version write, +1 version read)")
 	split := flag.Bool("split", false, "print getSQLFile of the six embedded scripts")
 	exhaustive := flag.Bool("exhaustive", false, "every call x {before, after} of the first start, main configurations")
+	partialN := flag.Int("partial", 0, "clustered configurations: one in N script statements of a first start completes on some hosts only (1 = every statement)")
 	f := hx.ParseFlags()
 	out := hx.OpenOut(f.Out)
 	defer out.Close()
 	loadErrPool(*errtexts)
+	if *partialN > 0 {
+		partial(hx.Rand(f.Seed), out, *partialN)
+		return
+	}
 	if *targetedN > 0 {
 		targeted(hx.Rand(f.Seed), *targetedN, out)
 		return
@@ -355,7 +421,7 @@ func main() {
 		id := 0
 		names := []string{"single", "cloud", "clustered", "cloud+clustered"}
 		for ci, cfg := range mainCfgs {
-			log := start(NewDB(), cfg, nil).Log
+			log := start(NewDB(1), cfg, nil).Log
 			n := len(log)
 			for i := 0; i < n; i++ {
 				for _, kind := range []string{"before", "after"} {
@@ -367,6 +433,15 @@ func main() {
 				if log[i].T == "s" {
 					for _, spec := range errPool {
 						c := Case{ID: id, Class: names[ci] + "/exhaustive-error-value", Cfg: cfg, Faults: []*Fault{{N: i, Kind: "before", Err: spec}}}
+						runCase(&c)
+						out.Put(c)
+						id++
+					}
+				}
+				if cfg.Clustered && (log[i].T == "s" || log[i].T == "cv" || log[i].T == "cvd") {
+					for _, sk := range [][]bool{{false, true}, {true, false}, {true, true}} {
+						c := Case{ID: id, Class: names[ci] + "/exhaustive-partial", Cfg: cfg, NHosts: 2,
+							Faults: []*Fault{{N: i, Kind: "partial", Skip: sk, Err: errDDLTimeout}}}
 						runCase(&c)
 						out.Put(c)
 						id++
